@@ -26,9 +26,8 @@ func (x *Exec) ExecPaths(fr *frame, st *State, k func(st *State, val Value)) {
 	if fn.Blocks == nil {
 		panic(unsupported("no body for " + fn.String()))
 	}
-	if fn.Recover != nil {
-		panic(unsupported("function with recover block (defer/recover): " + fn.String()))
-	}
+	// fn.Recover exists for every function with a defer; only deferred calls that are known
+	// no-ops (unlock, Done) are accepted by execInstr, so no recover() can intercept a panic here.
 	fi := x.funcInfo(fn)
 	fr.fi = fi
 	for i, p := range fn.Params {
@@ -199,11 +198,13 @@ func (x *Exec) ExecPaths(fr *frame, st *State, k func(st *State, val Value)) {
 				}
 			}
 			sub := &State{PC: st.PC, Heap: st.Heap, Alloc: st.Alloc, Env: map[ssa.Value]Value{}}
+			x.copyGhost(st.Env, sub.Env)
 			savedStack := x.stack
 			x.stack = append(append([]*ssa.Function{}, x.stack...), req.callee)
 			next := idx + 1
 			x.ExecPaths(nfr, sub, func(rst *State, val Value) {
 				cont := &State{PC: rst.PC, Heap: rst.Heap, Alloc: rst.Alloc, Env: copyEnv(callerEnv)}
+				x.copyGhost(rst.Env, cont.Env)
 				if v, ok := ins.(ssa.Value); ok {
 					cont.Env[v] = val
 				}
